@@ -1,4 +1,4 @@
 # quick-tier run counts per check (must agree with default_runs in sim/wsim/src/main.rs and q_runs in the dsim/osim drivers)
 quick_runs() { case "$1" in
-  C01) echo 1600;; C02) echo 900;; C03) echo 1700;; C04) echo 500;; C05) echo 1500;; C06) echo 700;; C07) echo 36;; C08) echo 48;; C09) echo 42;; C10) echo 160;;
+  C01) echo 1600;; C02) echo 600;; C03) echo 1400;; C04) echo 500;; C05) echo 1500;; C06) echo 550;; C07) echo 24;; C08) echo 40;; C09) echo 28;; C10) echo 160;;
   C11) echo 1150;; C12) echo 230;; C13) echo 110;; C15) echo 1250;; C16) echo 560;; C17) echo 2500;; C18) echo 3000;; C20) echo 8000;; C21) echo 2000;; C22) echo 3500;; C23) echo 3500;; C24) echo 3300;; esac; }
